@@ -368,3 +368,42 @@ void h_thread_metadata_store(void)
 	REACH("thread_metadata_store returns");
 	if (w_tree == T_TMP && (g_keys & K_FINISHED)) REACH("finished metadata stored in tmp");
 }
+
+/* try_clean_dir (C10: "removing temporaries"): never touches a stream file (rmdir removes only an
+ * empty directory); a failure other than ENOTEMPTY / ENOENT is reported (warn), those two are
+ * the expected outcomes when other threads still use the directory. */
+void c_try_clean_dir(const char *dir)
+__CPROVER_requires(__CPROVER_is_fresh(dir, 2) && (dir[0] == TAG_TMP || dir[0] == TAG_FIN) && dir[1] == 0)
+__CPROVER_requires(FS_WF && FS_QUIET_N(1000000u) && INV_NOLOSS && INV_CRASH)
+__CPROVER_assigns(__CPROVER_errno, g_rmdir_errno, g_dir, DIAG_FRAME)
+__CPROVER_ensures((g_warn == OLD(g_warn) + 1) == (g_rmdir_errno != 0 && g_rmdir_errno != ENOTEMPTY && g_rmdir_errno != ENOENT))
+__CPROVER_ensures(g_warn == OLD(g_warn) || g_warn == OLD(g_warn) + 1)
+__CPROVER_ensures(g_err == OLD(g_err))
+/* a non-empty directory stays */
+__CPROVER_ensures(!OLD(g_dir[T_TMP]) || g_dir[T_TMP] || (g_st[T_TMP][F_OBS] == S_ABSENT && g_st[T_TMP][F_JSON] == S_ABSENT && g_st[T_TMP][F_AUX] == S_ABSENT))
+;
+void h_try_clean_dir(void)
+{
+	const char *dir;
+	try_clean_dir(dir);
+	if (g_rmdir_errno == 0) REACH("directory removed");
+	if (g_rmdir_errno == ENOTEMPTY) REACH("not empty: silently kept");
+	if (g_rmdir_errno == EACCES) REACH("unexpected error: warned");
+}
+
+/* mkdir_proc: returns ==> mkpath succeeded (else die).  NOTE: the snprintf result is not checked
+ * here (a too long trace path is silently truncated) -- not an I/O fault, reported as a remark. */
+void c_mkdir_proc(char *path, const char *tracedir, const char *loom, int pid)
+__CPROVER_requires(__CPROVER_is_fresh(path, PATH_MAX) && __CPROVER_is_fresh(tracedir, 2) && __CPROVER_is_fresh(loom, 2))
+__CPROVER_requires((tracedir[0] == TAG_TMP || tracedir[0] == TAG_FIN) && tracedir[1] == 0 && loom[1] == 0)
+__CPROVER_requires(FS_WF && FS_QUIET_N(1000000u) && INV_NOLOSS)
+__CPROVER_assigns(FS_FRAME, DIAG_FRAME, g_died, g_dir, g_mkpath_failed, __CPROVER_object_upto(path, 3))
+__CPROVER_ensures(g_mkpath_failed == OLD(g_mkpath_failed))
+__CPROVER_ensures(g_dir[tracedir[0] == TAG_TMP ? T_TMP : T_FIN] == 1)
+;
+void h_mkdir_proc(void)
+{
+	char *path; const char *tracedir, *loom; int pid;
+	mkdir_proc(path, tracedir, loom, pid);
+	REACH("mkdir_proc returns");
+}
